@@ -91,6 +91,17 @@ Theorem C07_fresh_offer_exact : forall k c start h0 cs g1 off g2 e h2 new lu au 
 Proof. exact fresh_offer_exact. Qed.
 Print Assumptions C07_fresh_offer_exact.
 
+(* a replaced offer can never be accepted: whoever accepts successfully is the (authorising) addressee of
+   the LATEST successful offer *)
+Theorem C07_replaced_offer_dead : forall k c start h0 cs g1 off g2 e h2 new lu au auths,
+  1 <= min_temp_ttl c ->
+  history k c (init start h0) cs = g1 ++ off :: g2 ++ e :: h2 ->
+  ev_call off = Offer new lu au -> offer_ok off = true -> no_oca g2 ->
+  ev_call e = Accept auths -> is_ok (ev_out e) = true ->
+  has_auth auths new = true /\ ev_after e = Some new.
+Proof. exact replaced_offer_dead. Qed.
+Print Assumptions C07_replaced_offer_dead.
+
 (* an accepted offer cannot be accepted again; a cancelled offer can never be accepted:
    after a successful accept / cancel [x], a later successful accept needs a NEW successful offer *)
 Theorem C07_accept_once : forall k c start h0 cs a x b e h2 auths,
@@ -172,8 +183,11 @@ Proof. exact renounced_is_final. Qed.
 Print Assumptions C07_renounced_is_final.
 
 (* ---- the monitor (the property as a boolean over observations) and the model ---- *)
-(* on every run of the model: no disagreement with itself, and the monitor either accepts the
-   whole run or stops with class 1 (the known finding) - never an unclassified failure *)
+(* verdict of [check]: (first model/implementation disagreement, monitor index, class) where the
+   monitor index is the first UNCLASSIFIED failure if there is one (class 0), otherwise the first
+   known-finding step (class 1) - the monitor keeps checking after a known-finding step.
+   On every run of the model (min_temp_entry_ttl = 1): no disagreement, and no unclassified failure
+   anywhere in the run. *)
 Theorem C07_monitor_accepts_model : forall hd cs,
   wf_header hd = true ->
   let v := check (observe_model hd cs) in
@@ -181,13 +195,37 @@ Theorem C07_monitor_accepts_model : forall hd cs,
 Proof. exact check_model. Qed.
 Print Assumptions C07_monitor_accepts_model.
 
-(* if no offer asks for a shorter life than an earlier one (and min_temp_entry_ttl = 1),
-   nothing is overwritten by a shorter-lived offer and the verdict is clean *)
+(* if no offer is written over a still stored entry that outlives it (a boolean of the run, met
+   by every input without a shorter-over-stored offer) the verdict is clean *)
 Theorem C07_monitor_accepts_model_no_override : forall hd cs,
-  wf_header hd = true -> h_min hd = 1 -> lus_ok 0 cs = true ->
+  wf_header hd = true ->
+  no_shorter_override (h_kind hd) (h_cfg hd) (h_init hd) cs = true ->
   check (observe_model hd cs) = (0%N, 0%N, 0%N).
 Proof. exact check_model_no_override. Qed.
 Print Assumptions C07_monitor_accepts_model_no_override.
+
+(* class 1 is EXACTLY the shape of known_findings.json, on ANY trace (implementation or model): the
+   step is a successful accept by the authorised addressee b of the latest offer itB (until L2),
+   an earlier successful offer itA (until L1) was only replaced since (no successful cancel / accept
+   in m2), and the accept happens at a ledger n with L2 < n <= L1 *)
+Theorem C07_known_class_is_F2_shape : forall hd l q it q',
+  mon_run hd (mon_init hd) l = Some q -> mon_step hd q it = MKnown q' ->
+  exists au v ob b L2 L1 m1 itA m2 a itB l2,
+    it = (Accept au, Ok v, ob) /\ has_auth au b = true /\ fst ob = Some b /\
+    l = (m1 ++ itA :: m2) ++ itB :: l2 /\
+    offer_item itA a L1 /\ forallb is_no_ca m2 = true /\
+    offer_item itB b L2 /\ forallb is_quiet l2 = true /\
+    L2 < q_now q <= L1.
+Proof. exact known_is_F2_shape. Qed.
+Print Assumptions C07_known_class_is_F2_shape.
+
+(* and a class-1 verdict of the monitor points at such a step *)
+Theorem C07_verdict_known_points_at_F2 : forall hd l k,
+  mon_from hd (mon_init hd) l 0%N 0%N = (k, 1%N) ->
+  exists l1 it l2 q1 q', l = l1 ++ it :: l2 /\ k = N.of_nat (length l1 + 1) /\
+    mon_run hd (mon_init hd) l1 = Some q1 /\ mon_step hd q1 it = MKnown q'.
+Proof. exact verdict_known_points_at_F2. Qed.
+Print Assumptions C07_verdict_known_points_at_F2.
 
 (* ---- non-vacuity ---- *)
 (* a history in which a cancel, a fresh offer accepted at exactly its live_until, a second
@@ -204,5 +242,22 @@ Example C07_model_run_known_class :
   check (observe_model hd0 [Offer 1%N 1000 [0%N]; Offer 2%N 110 [0%N]; Advance 400%N; Accept [2%N]]) = (0%N, 4%N, 1%N).
 Proof. vm_compute. reflexivity. Qed.
 Example C07_model_run_clean :
-  check (observe_model hd0 ex_calls) = (0%N, 0%N, 0%N) /\ lus_ok 0 [Offer 1%N 110 [0%N]; Offer 2%N 1000 [0%N]] = true.
+  check (observe_model hd0 ex_calls) = (0%N, 0%N, 0%N) /\
+  no_shorter_override Own (h_cfg hd0) (h_init hd0) ex_calls = true /\
+  (* replaced by a longer offer, an offer after a cancel, by a later holder: no override either *)
+  no_shorter_override Own (h_cfg hd0) (h_init hd0)
+    [Offer 1%N 110 [0%N]; Offer 2%N 1000 [0%N]; Offer 2%N 0 [0%N]; Offer 1%N 150 [0%N]; Accept [1%N]; Offer 2%N 120 [1%N]] = true /\
+  no_shorter_override Own (h_cfg hd0) (h_init hd0) [Offer 1%N 1000 [0%N]; Offer 2%N 110 [0%N]] = false.
+Proof. vm_compute. repeat split; reflexivity. Qed.
+(* the premises of C07_fresh_offer_exact / C07_accept_once / C07_cancel_kills / C07_replaced_offer_dead are met:
+   an expired earlier offer before a fresh one (non-empty g1), re-offers after an accept and after a cancel *)
+Example C07_premises_met :
+  let h := history AC ex_cfg (init 100 (Some 0%N))
+             [Offer 1%N 110 [0%N]; Advance 11%N; Offer 2%N 120 [0%N]; Advance 9%N; Accept [2%N];
+              Offer 3%N 0 [2%N]; Offer 3%N 130 [2%N]; Offer 3%N 0 [2%N]; Offer 1%N 140 [2%N]; Accept [3%N]; Accept [1%N]] in
+  map (fun e => (offer_ok e, cancel_ok e, accept_ok e, ev_now e)) h =
+  [(true, false, false, 100); (false, false, false, 100); (true, false, false, 111); (false, false, false, 111);
+   (false, false, true, 120); (false, false, false, 120); (true, false, false, 120); (false, true, false, 120);
+   (true, false, false, 120); (false, false, false, 120); (false, false, true, 120)] /\
+  match h with e0 :: _ => eff ex_cfg e0 = 110 | [] => False end.
 Proof. vm_compute. split; reflexivity. Qed.
